@@ -404,7 +404,7 @@ func newCacheSeqSpec(name string, cfg CacheCfg, defAtStart time.Duration, cbAtSt
 		c := newCache(c2)
 		l.c = c
 		m := CState{Now: epochNs, Def: defAtStart}
-		if mode == "C15" {
+		if mode == "C15" || cfg.Ivl > 0 {
 			waitJanitorsIdle() // the janitor goroutine creates its ticker itself: let it get there
 		}
 		if tk := vtime.VCaptured(); len(tk) == 1 {
